@@ -29,6 +29,9 @@ func c04eKnobs() knobs {
 	k.maxRPC = 2
 	k.maxMsgs = 3
 	k.pBig = 0
+	// what a cancel can tear apart: results that consist of several parts
+	// (status, headers, trailers, messages)
+	k.pErr, k.pMD = 0.5, 0.7
 	return k
 }
 
@@ -89,9 +92,31 @@ func workerC04e(t *testing.T, out *WorkerOut) {
 	}
 	for pi := 0; budgetLeft(); pi++ {
 		seed := *flagSeed + int64(pi)
-		g := &gen{rng: newRand(seed ^ 0x5DEECE66D), k: k}
+		kk := k
+		if seed%4 == 1 {
+			// every fourth program: one single-response in-process call whose
+			// handler fails and sets metadata - a result in several frames,
+			// each of which a cancel can separate from the others
+			kk.kinds, kk.transports, kk.pErr, kk.pMD, kk.maxRPC = []int{KUnary, KUnary, KClientStream}, []string{TInproc}, 0.8, 1, 1
+		}
+		g := &gen{rng: newRand(seed ^ 0x5DEECE66D), k: kk}
 		base := g.program("c04e", seed)
 		base.Faults = nil
+		focus := seed%4 == 1
+		if focus {
+			r := base.RPCs[0]
+			if r.NHdrOpts == 0 {
+				r.NHdrOpts = 1
+			}
+			if r.NTlrOpts == 0 {
+				r.NTlrOpts = 1
+			}
+			// headers and trailers are set for certain, just before the handler returns
+			if n := len(r.Handler); n > 0 && r.Handler[n-1].K == "return" {
+				extra := []Op{{K: "sethdr", MD: []KV{{K: "k1", V: "focus-h"}}}, {K: "settlr", MD: []KV{{K: "k2", V: "focus-t"}, {K: "data-bin", V: RawStr([]byte{0, 255, 10})}}}}
+				r.Handler = append(r.Handler[:n-1], append(extra, r.Handler[n-1])...)
+			}
+		}
 		// half of the programs carry a deadline on their first call, far enough
 		// away that it never passes by itself
 		withDeadline := seed%2 == 0
@@ -112,6 +137,9 @@ func workerC04e(t *testing.T, out *WorkerOut) {
 		}
 		steps := res.Stats.Steps
 		for i := 0; i <= steps+1 && budgetLeft(); i++ {
+			if focus && len(res.Stats.HReturnStep) > 0 && res.Stats.HReturnStep[0] > 0 && i < res.Stats.HReturnStep[0]-3 {
+				continue // these programs are about the end of the call
+			}
 			for target := range base.RPCs {
 				p := cloneProgram(base)
 				p.Faults = []Fault{{Kind: "cancel", RPC: target, Step: i, N: (i + target) % 2}}
@@ -119,6 +147,31 @@ func workerC04e(t *testing.T, out *WorkerOut) {
 				record(r, seed)
 				cases++
 				runtime.GC()
+				// the same cancel position again, with other schedules from
+				// that point on (which side of a select wins once the context
+				// is done, who runs first, ...)
+				nalt := int64(2)
+				if target < len(res.Stats.HReturnStep) && target < len(res.Stats.CEndStep) {
+					// while the result is on its way to the caller (handler
+					// returned, client not finished) a cancel races with
+					// completion: many more schedules from there on
+					if hr, ce := res.Stats.HReturnStep[target], res.Stats.CEndStep[target]; hr > 0 && i >= hr-2 && (ce == 0 || i <= ce+1) {
+						nalt = 12
+						if focus {
+							nalt = 40
+						}
+					}
+				}
+				for alt := int64(1); alt <= nalt && budgetLeft(); alt++ {
+					p2 := cloneProgram(base)
+					p2.Faults = []Fault{{Kind: "cancel", RPC: target, Step: i}}
+					tp := NewSearchTape(tapeSeed)
+					tp.ForkSeed = tapeSeed*31 + int64(i)*7 + alt
+					r2 := RunOne(t, p2, tp, false)
+					record(r2, seed)
+					cases++
+					runtime.GC()
+				}
 			}
 			if withDeadline {
 				p := cloneProgram(base)
@@ -131,7 +184,7 @@ func workerC04e(t *testing.T, out *WorkerOut) {
 		}
 	}
 	out.Extra = map[string]any{
-		"c04e_enumeration":           "for each generated fault-free program (1-2 calls, both transports, all kinds): cancel of each call at every scheduler step index 0..S+1 of the baseline run (S = its length), and for programs with a deadline the deadline passing at every step index, all under the baseline's schedule tape; programs are drawn per worker until the budget ends",
+		"c04e_enumeration":           "for each generated fault-free program (1-2 calls, both transports, all kinds): cancel of each call at every scheduler step index 0..S+1 of the baseline run (S = its length), each position under the baseline's schedule and under 2 (12 while the result is on its way to the caller) schedules that fork from it at the moment of the cancel; every fourth program is a single in-process single-response call with a failing handler that sets headers and trailers, cancelled only around the end of the call, 40 forks per position; and for programs with a deadline the deadline passing at every step index; programs are drawn per worker until the budget ends",
 		"c04e_programs_this_worker":  progs,
 		"c04e_cases_this_worker":     cases,
 		"exhaustive_part":            true,
